@@ -111,6 +111,8 @@ def _stash(case, impl):
 def run_impl(case):
     try:
         return fu.run_real(case)
+    except fu.ObservationError:
+        raise          # the harness cannot observe the object: infrastructure error, not a verdict
     except Exception as e:
         return {"raise": core.exc_class(e), "msg": str(e)[:200]}
 
